@@ -264,6 +264,15 @@ func runC17(r *Run) int {
 			// higher level are also built for vectors that carry none of that level's metrics
 			vl := (k + idx) % 3
 			randOptional3(&v, vl, rng)
+			if k%3 == 2 {
+				// a sparse vector: most optional metrics Not Defined, one to three of them set (combinations such as
+				// "only CR:L and AR:H" have probability 1e-6 when every metric is drawn uniformly)
+				for m := spec.E; m < spec.V3LevelEnd(vl); m++ {
+					if rng.IntN(5) > 0 {
+						v.M[m] = 0
+					}
+				}
+			}
 			respell(&v, vl, rng)
 			for level := vl; level < 3; level++ {
 				s := render3(&v, vl, nil)
